@@ -73,6 +73,26 @@ def decOp (j : Json) : Except String Op := do
   | "apiDelete" => pure (.apiDelete (← J.getHex j "name"))
   | o => throw s!"unknown op {o}"
 
+/-- A wire op is one model op, or — `swarm` — the sequence of primitive ops a crowd of instances performs: every
+    instance heartbeats at `t`, then `rounds` times every instance reports for every upstream (one max-in-flight item
+    `fc`; `quotas` = what the real allocation answered, in that order). Only the state after the whole group is
+    compared and judged. -/
+def decOps (j : Json) : Except String (List Op) := do
+  match ← J.getStr j "op" with
+  | "swarm" =>
+      let t ← J.getNat j "t"
+      let insts ← J.getHexList j "insts"
+      let ups ← J.getHexList j "ups"
+      let rounds ← J.getNat j "rounds"
+      let fc ← J.getHex j "fc"
+      let quotas ← (← J.getArr j "quotas").toList.mapM fun q => do (← q.getArr?).toList.mapM decItem
+      let hbs := insts.map fun i => Op.heartbeat i t
+      let pairs := (List.range rounds).flatMap fun _ => insts.flatMap fun i => ups.map fun u => (u, i)
+      if pairs.length ≠ quotas.length then throw "swarm: one quota list per report"
+      let reps := (pairs.zip quotas).map fun (p, q) => Op.report p.1 p.2 [(fc, .mif)] q
+      pure (hbs ++ reps)
+  | _ => do pure [← decOp j]
+
 def decCond (j : Json) : Except String (Nat × Cond) := do
   pure (← J.getNat j "sh", ⟨← J.getHex j "name", ← J.getHex j "u", ← J.getHex j "i", ← optHex j "label",
     ← decList decItem j "items", ← decList decItem j "status"⟩)
@@ -170,28 +190,34 @@ def decOut (j : Json) : Except String Out := do
 
 def shardFn (n : Nat) : Ups → Nat := getShardID n
 
-def runSteps (f : Ups → Nat) : State → List Op → List Json → List Json
+def runSteps (f : Ups → Nat) : State → List (List Op) → List Json → List Json
   | _, [], acc => acc.reverse
-  | s, op :: rest, acc =>
+  | s, [op] :: rest, acc =>
     let (s', out) := step f s op
     runSteps f s' rest (J.obj [("out", encOut out), ("state", encState s')] :: acc)
+  | s, group :: rest, acc =>
+    let s' := run f s group
+    runSteps f s' rest (J.obj [("out", encOut .unit), ("state", encState s')] :: acc)
 
 def doRun (a : Json) : Except String Json := do
   let n ← J.getNat a "shards"
   if n = 0 then throw "panic: integer divide by zero (shard count 0)"
-  let ops ← decList decOp a "ops"
+  let ops ← decList decOps a "ops"
   pure <| J.obj [("init", encState init), ("steps", Json.arr (runSteps (shardFn n) init ops []).toArray)]
 
-def judgeAll (f : Ups → Nat) : Nat → List Op → List Out → List State → List Json → List Json
-  | k, op :: ops, ok :: oks, pre :: post :: rest, acc =>
-    let v := (judgeStep f pre op ok post ++ judgeState post).map fun c => J.obj [("step", J.nat k), ("class", Json.str c)]
+def judgeAll (f : Ups → Nat) : Nat → List (List Op) → List Out → List State → List Json → List Json
+  | k, group :: ops, ok :: oks, pre :: post :: rest, acc =>
+    let cls := match group with
+      | [op] => judgeStep f pre op ok post ++ judgeState post
+      | _ => judgeState post   -- a group: only the state it ends in
+    let v := cls.map fun c => J.obj [("step", J.nat k), ("class", Json.str c)]
     judgeAll f (k + 1) ops oks (post :: rest) (acc ++ v)
   | _, _, _, _, acc => acc
 
 def doJudge (a : Json) : Except String Json := do
   let n ← J.getNat a "shards"
   if n = 0 then throw "panic: integer divide by zero (shard count 0)"
-  let ops ← decList decOp a "ops"
+  let ops ← decList decOps a "ops"
   let oks ← decList decOut a "outs"
   let states ← decList decState a "states"
   if states.length ≠ ops.length + 1 ∨ oks.length ≠ ops.length then throw "judge: need one state per op plus the initial one"
